@@ -129,7 +129,7 @@ def generate(rs: int, tier: str, index: int) -> dict:
         d2 = ch.sub("swapped").choice([">f8", ">i8", ">u4", ">c16", ">f4", ">i2", ">u8"])
     step: Dict[str, Any] = {"id": 0, "k": kind, "d1": d1, "d2": d2}
     if kind == "ctor":
-        how = ch.choice(["polynomial_dtype", "aspolynomial_dtype", "from_attributes_dtype", "from_attributes_mixed", "dict", "variable", "symbols", "astype", "from_data", "aspolynomial_poly_dtype", "polynomial_list", "aspolynomial_poly_names_dtype", "empty_dict"])
+        how = ch.choice(["polynomial_dtype", "aspolynomial_dtype", "from_attributes_dtype", "from_attributes_mixed", "dict", "variable", "symbols", "astype", "from_data", "aspolynomial_poly_dtype", "polynomial_list", "aspolynomial_poly_names_dtype", "empty_dict", "raw_mixed_fields"])
         step["value"] = ch.sub("v").below(3)
         if cast_cell:
             how = CASTS[(index // len(DTYPES) ** 2) % len(CASTS)]
@@ -348,6 +348,31 @@ class Runner:
                 keys = [frozenset((n, kk) for n, kk in zip(p["names"], e) if kk) for e in p["exponents"]]
                 return (lambda: numpoly.polynomial_from_attributes(exps, cols, tuple(p["names"]), dtype=explicit)), \
                     Expect(expect_dtype, tuple(p["shape"]), _strip({key: c.astype(expect_dtype) for key, c in zip(keys, cols)})), how, {"mixed": True}
+            if how == "raw_mixed_fields":
+                # data arriving as a raw structured array (the documented core of a polynomial) whose fields do not all
+                # have one type, as records assembled column by column do: the common type, every value kept
+                mixed = [numpy.dtype(m) for m in step["mixed"]]
+                kinds_unsigned = any(m.kind in "ub" for m in mixed)
+                cols = [numpy.array(numpy.abs(c).astype(mixed[i % 3]) if kinds_unsigned and c.dtype.kind not in "b" else c.astype(mixed[i % 3])) for i, c in enumerate(_cols(p))]
+                expect_dtype = numpy.result_type(*cols)
+                if numpy.dtype(expect_dtype).kind in "ub":
+                    cols = [numpy.abs(c) if c.dtype.kind not in "bc" else c for c in cols]
+                keys = [frozenset((n, kk) for n, kk in zip(p["names"], e) if kk) for e in p["exponents"]]
+                shape = tuple(p["shape"])
+
+                def thunk_raw():
+                    q = self.build(p)
+                    raw = numpy.zeros(shape, dtype=[(key, c.dtype) for key, c in zip(q.keys, cols)])
+                    for key, c in zip(q.keys, cols):
+                        raw[key] = c
+                    route = step.get("value", 0) % 3
+                    if route == 0:
+                        return numpoly.polynomial(raw, names=q.names)
+                    if route == 1:
+                        return numpoly.aspolynomial(raw, names=q.names)
+                    return numpoly.reshape(numpoly.polynomial(raw, names=q.names), shape)
+
+                return thunk_raw, Expect(expect_dtype, shape, _strip({key: c.astype(expect_dtype) for key, c in zip(keys, cols)})), how, {"mixed": True}
             if how == "dict":
                 cols = _cols(p)
                 dct = {tuple(e): c for e, c in zip(p["exponents"], cols)}
